@@ -102,6 +102,16 @@ func c12Forward(rng *rand.Rand) c12Prog {
 		sStep("out"), sInc("$s.count", 1), sMark("S")}, Pick(rng, c12Suffixes(rng)))}
 }
 
+// two jumps ahead of one mark (both may be found closed in the same polling round of the mark:
+// short or empty upstream)
+func c12Forward2(rng *rand.Rand) c12Prog {
+	start := Pick(rng, []ja{{sV()}, {sV("nope")}, {sV("v0")}})
+	return c12Prog{"forward2", cat(start, ja{
+		sJump("S", sCond("_gid", "EQ", Pick(rng, []string{"v0", "v1"})), true),
+		sJump("S", sCond("_gid", "EQ", Pick(rng, []string{"v1", "v2"})), rng.Intn(4) > 0),
+		sStep("out"), sMark("S")}, Pick(rng, c12Suffixes(rng)))}
+}
+
 // two loops one after the other (second counter lives in mark u, set on a fresh element)
 func c12Sequential(rng *rand.Rand) c12Prog {
 	K1 := 1 + rng.Intn(3)
@@ -190,8 +200,10 @@ func c12Gen(r *Run) {
 			p = c12Single(rng)
 		case k < 14:
 			p = c12Double(rng)
-		case k < 16:
+		case k < 15:
 			p = c12Forward(rng)
+		case k < 16:
+			p = c12Forward2(rng)
 		case k < 18:
 			p = c12Sequential(rng)
 		default:
@@ -224,6 +236,15 @@ func c12Gen(r *Run) {
 		if obs[i]["timeout"] == true {
 			r.Count("timeouts")
 		}
+		c12Hint(ops[i], obs[i])
 		r.Emit(ops[i], obs[i])
+	}
+}
+
+// c12Hint: the driver judges nested loops (open finding C12-nested-loop-loses-rows) on what the
+// engine answered: the answer travels with the op.  It plays no role for any other program.
+func c12Hint(op, obs jm) {
+	if obs["rows"] != nil || obs["unstable"] != nil {
+		op["hint"] = obs
 	}
 }
